@@ -623,7 +623,10 @@ impl Session {
 
         // Validate first: nothing may be published before the manager accepts the commit
         match self.tx_manager.commit(tx_id) {
-            Ok(_) => {
+            Ok(commit_epoch) => {
+                // Keep the store's clock in step with the commit epoch: accessors that
+                // use it would otherwise never see anything committed after epoch 0.
+                self.store.advance_epoch_to(commit_epoch);
                 // Commit RDF store pending operations
                 #[cfg(feature = "rdf")]
                 self.rdf_store.commit_tx(tx_id);
